@@ -21,8 +21,7 @@ def replace_node(node: _M, repl: _M) -> None:
     if node is repl:
         return
     token_store.splice(repl.detach(), node.first_token, node.last_token)
-    if isinstance(repl, base.RawTreeModel):
-        repl.reattach(token_store)
+    repl.reattach(token_store)
 
 
 def _check_detachable(values: Iterable[base.RawModel]) -> None:
